@@ -8,7 +8,16 @@ import (
 
 func init() {
 	subcommands["sizes"] = func(args []string) {
+		for _, sp := range commonSweeps(args[0]) {
+			fmt.Printf("C18 %s tables=%d reqs=%d cases=%.3g\n", sp.Name, sp.Tables.N, len(sp.Reqs), float64(sp.Tables.N)*float64(len(sp.Reqs)))
+		}
 		for _, r := range []rm.Router{rm.Curly, rm.JSR311} {
+			for _, sp := range c03Sweeps(r, args[0]) {
+				fmt.Printf("C03 %s %s tables=%d reqs=%d cases=%.3g (x permutations)\n", r, sp.Name, sp.Tables.N, len(sp.Reqs), float64(sp.Tables.N)*float64(len(sp.Reqs)))
+			}
+			for _, sp := range c17Sweeps(args[0]) {
+				fmt.Printf("C17 %s %s tables=%d reqs=%d cases=%.3g\n", r, sp.Name, sp.Tables.N, len(sp.Reqs), float64(sp.Tables.N)*float64(len(sp.Reqs)))
+			}
 			for _, sp := range routingSweeps(r, args[0], false) {
 				fmt.Printf("%s %s tables=%d reqs=%d cases=%.3g\n", r, sp.Name, sp.Tables.N, len(sp.Reqs), float64(sp.Tables.N)*float64(len(sp.Reqs)))
 			}
